@@ -535,7 +535,8 @@ def check(prog, run):
         normal, raised = event_paths(m.node, ev, may_raise=lambda nn: None)
         for seq in sorted(normal):
             r.instance("Schema.%s path %s" % (n, list(seq)))
-            if "write" in seq and "invalidate" not in seq[len(seq) - 1 - list(reversed(seq)).index("write"):]:
+            # the method runs to completion before anyone can ask for the verdict again: the reset may precede the write
+            if "write" in seq and "invalidate" not in seq:
                 run.report(r, "%s:Schema.%s:stale-verdict" % (SCHEMA, n), m.where(),
                            "Schema.%s assigns a resolver without resetting self._is_valid afterwards: validate() keeps returning the "
                            "verdict computed before the resolver was (re)assigned" % n)
